@@ -14,25 +14,25 @@ T = {
 DEFAULT_NOTE = "Trusted: Coq 8.16.1 kernel, extraction (ExtrOcamlBasic only), OCaml driver, Go harness + comparer, translator for the key layer; host guarantees and exclusions of DESIGN.md 3.5; glue of DESIGN.md 3.6 is modelled, not verified."
 
 GENERIC = {
- "C02": "trace theorems over the model's ledger-event log (each request settled at most once, to the right party) + correspondence on bank, oblig, req + settlement monitor",
- "C03": "Coq invariant (deposit account = sum of binding deposits) and per-step deposit-change / refund-iff specifications + correspondence on bank, bind",
- "C04": "Coq per-step slash specification (amount = floor(deposit*fraction), burn, auto-disable) and trace characterisation of slash events + correspondence on bind, bank, slash",
- "C05": "Coq per-handler authority theorems (success implies rightful signer; only the signer is debited) + correspondence on res, bank + wrong-signer stream",
- "C06": "Coq functional specification of the new-batch handler (eligible set, cap, threshold, pause) + correspondence on req, ctx, bank + independent recomputation monitor",
- "C07": "Coq theorems on the pricing functions (discount selection, fee formula, bounds, consumer charge = stored fee) + pure price stream against the real sdk.Dec code + correspondence on req, vol, bank",
- "C08": "Coq invariants on request life time (answerable until the EndBlock of the expiry height, once, by the provider) + correspondence on res, req",
- "C09": "Coq step relation on context records (allowed transitions, static fields, completed is final) + correspondence on ctx, res",
- "C10": "Coq invariants (one-shot <= 1 batch, counter <= total, no overlapping batches) and cadence lemmas + correspondence on ctx, queue",
- "C11": "Coq scheduling invariant (queue entries and pointers agree, running contexts always have exactly one pending event) + correspondence on queue, req, ctx",
- "C12": "Coq invariants on batch counts/completion and trace theorem on callbacks + correspondence on ctx, req, cb",
- "C13": "Coq invariant (owner earnings = sum of its providers' earnings) and withdraw specifications + correspondence on oblig, bank, index + key-scan exactness from the regenerated key layer",
- "C14": "Coq invariant (available => deposit >= minimum for the stored price) + rejection lemmas + correspondence on bind, res + pure price stream",
- "C15": "Coq invariants on definitions/bindings/indexes (unique, stable, consistently indexed) + correspondence on index, bind, res",
- "C16": "Coq invariant (no orphan request/response/marker records; finished contexts removed) + correspondence on req, ctx",
- "C17": "Coq refinement of every query code path to a comprehension over the state + differential check of all gRPC and legacy queries against raw store scans and the model",
- "C18": "Coq theorems over the key layer regenerated from types/keys.go on every run (injectivity, family disjointness, scan exactness) and over the ID functions + pure key stream against the real functions",
- "C19": "Coq theorems on the modelled export / zero-height preparation / import (refunds exact, escrow emptied, round trip) + differential check of the real export-validate-JSON-import pipeline",
- "C20": "Coq theorem that no handler or EndBlock reaches a Panic branch from a reachable state + panic-site census of the source + double replay in separate app instances comparing store digests",
+ "C02": "Coq trace theorems over the ledger-event log of every reachable state (Reach_T: each request id issued at most once; exactly one of earn+tax / refund / nothing per request, to the issuing consumer or the addressed provider, amounts tax = floor(fee*rate)) + per-handler debit-equals-issued-fees + correspondence on bank, oblig, req + settlement monitor",
+ "C03": "Coq invariant for all reachable states (deposit account = sum of binding deposits, all balances >= 0, supply = sum of balances) + per-step theorems (refund iff unavailable, non-zero and waiting period over; deposits only grow by owner-paid amounts; slash burns exactly the amount) + correspondence on bank, bind",
+ "C04": "Coq trace theorems (slash at most once per request, only with a time-out of a paid request or a malformed answer, every such failure slashes) + per-call slash specification (amount = floor(deposit*fraction), deposit/account/supply reduced, auto-disable iff below minimum) + correspondence on bind, bank, slash + slash-event monitor",
+ "C05": "Coq per-handler authority theorems (success implies the rightful signer; module-created contexts cannot be driven by messages), wrong signer => state unchanged, only the signer is debited (bounded), EndBlock debits only consumers of due running contexts + correspondence on res, bank + wrong-signer stream",
+ "C06": "Coq exact case analysis of the new-batch handler (not running / total reached / skipped / paused for funds / issued to exactly the eligible providers in order, fee = filter price <= cap, consumer debited the sum) incl. the whole-EndBlock version + correspondence on req, ctx, bank + independent recomputation monitor",
+ "C07": "Coq theorems on the pricing functions (window and tier selection, fee formula and bounds, exact-floor characterisation, consumer charge = stored fee) + pure price stream against the real sdk.Dec / keeper code + correspondence on req, vol, bank + recomputation-from-published-text monitor",
+ "C08": "Coq theorems: a valid response of the provider to an active request is always accepted, everything else rejected without effect, once only, records survive every message and every EndBlock before the expiry height and are gone after it + correspondence on res, req + history-based acceptance monitor",
+ "C09": "Coq step relation on context records (the only message-induced changes are pause/start/kill/update/respond with their exact effect; static fields never change; completed is final) and record-shape invariant for reachable states + correspondence on ctx, res + transition monitor",
+ "C10": "Coq invariants (one-shot <= 1 batch, counter <= total, no overlapping batches), cadence lemmas L1-L4 and trace theorem C10_cadence (consecutive batch starts of an undisturbed context are exactly `frequency` apart) + correspondence on ctx, queue + cadence monitor",
+ "C11": "Coq scheduling invariant for reachable states (queue entries <=> pointers, never both queues, entries only for existing contexts and never in the past, a running context always has a pending event; every stored request has its expiry queued) + correspondence on queue, req, ctx",
+ "C12": "Coq invariants on batch counts (recorded counts = stored records while the expiry is pending), completion exactly at the last response or at expiry, trace theorem callback-once-per-batch with the exact outputs and error flag, state callback exactly on pause-for-funds + correspondence on ctx, req, cb",
+ "C13": "Coq invariant (owner earnings = sum of its providers' earnings, every earning has an owner) and withdraw specifications (exact payout, destination, records zeroed, nothing else touched) + correspondence on oblig, bank, index + key-scan exactness from the regenerated key layer",
+ "C14": "Coq invariant (available => deposit >= max(min deposit, price*multiple) for the price parsed from the published text) + rejection lemmas for bind/update/enable + slash auto-disable + correspondence on bind, res + pure price stream",
+ "C15": "Coq invariants on definitions/bindings/indexes (binding <=> index entries <=> parsed pricing; owner write-once; definitions immutable) + step stability theorems + correspondence on index, bind, res",
+ "C16": "Coq invariant (every request/response/marker belongs to the current batch of an existing context with a pending expiry; a context without pending expiry has no records) + cleanup and finished-context-removed theorems + correspondence on req, ctx",
+ "C17": "Coq refinement of every query code path (gRPC and legacy) to a comprehension over the state, hypotheses discharged for reachable states + differential check of all queries on sampled existing/non-existing arguments against raw store scans and the extracted model",
+ "C18": "Coq theorems over the key layer regenerated from types/keys.go on every run (injectivity per family, family disjointness, exactness of every prefix scan, refutations where a scan is not exact) and over the ID functions (length, round trip, injectivity) + pure key stream (45k cases) against the real functions",
+ "C19": "Coq theorems on the modelled export / zero-height preparation / import (every pending fee to its consumer, every earning to its provider, escrow emptied, contexts reset, export validates, export-import-export round trip, indexes rebuilt) + differential check of the real export-validate-JSON-import pipeline into a second app",
+ "C20": "Coq theorem that no message handler and no call inside EndBlock reaches a Panic branch or a dropped error from a reachable state (under the recorded exclusion X-K1) + panic-site census of the source against a reviewed baseline + double replay in fresh app instances comparing store digests after every step",
 }
 
 PENDING = "theorem file coq/Properties/%s.v is not in the tree yet (in progress this session); no check is registered until it is"
